@@ -735,6 +735,9 @@ func doStep(r *res.Request, st string) {
 		panic(42)
 	case "panic-nilerr":
 		panic((*res.Error)(nil))
+	case "panic-nil":
+		var v interface{}
+		panic(v)
 	default:
 		panic("unknown step " + st)
 	}
@@ -747,7 +750,7 @@ var replySteps = map[string][]string{
 	"call":   {"ok", "ok-nil", "ok-bad", "ok-bad-reserr", "ok-bad-wrapped", "resource", "resource-bad", "notfound", "methodnotfound", "invalidparams", "invalidparams-msg", "invalidquery", "error-res", "error-plain", "error-res-ctl", "error-plain-ctl", "invalidparams-ctl", "invalidquery-ctl"},
 }
 var otherSteps = []string{"ev-dollar", "ev-punct", "ev-empty", "ev-space", "ev-wild", "ev-gt", "ev-q", "ev-del", "ev-dot", "timeout-max", "timeout-sub", "timeout-zero", "ev-custom-bad", "ev-change-bad", "ev-add-bad", "timeout", "timeout-neg", "ev-custom", "ev-reserved", "ev-malformed", "ev-change", "ev-change-empty", "ev-add", "ev-add-neg", "ev-remove",
-	"ev-remove-neg", "ev-create", "ev-delete", "ev-reaccess", "ev-reset", "panic-res", "panic-err", "panic-str", "panic-int", "panic-nilerr", "panic-str-ctl",
+	"ev-remove-neg", "ev-create", "ev-delete", "ev-reaccess", "ev-reset", "panic-res", "panic-err", "panic-str", "panic-int", "panic-nilerr", "panic-nil", "panic-str-ctl",
 	"try-ev-custom", "try-ev-change", "try-ev-add", "try-ev-remove", "try-ev-create", "try-ev-delete", "try-ok", "try-panic-str", "try-ev-reserved"}
 
 func alphabet(sc *Scenario) []string {
@@ -798,6 +801,8 @@ func classify(m rec, clause string) string {
 		return false
 	}
 	switch {
+	case has("panic-nil"):
+		return clause + ":panic-nil"
 	case sc.kind() == "new" && sc.HasNew && m["inv"] == "new" && clause != "C05:unaltered":
 		replied := false
 		for _, st := range sc.Script {
@@ -882,6 +887,10 @@ func runBatches(scs []Scenario, seed int64, par int) (map[int]rec, map[int]strin
 				b, _ := json.Marshal(rest)
 				os.WriteFile(jf, b, 0o644)
 				cmd := exec.Command(filepath.Join(core.VerifDir, "bin", "engine"), "__reqbatch", jf, of, fmt.Sprint(seed+int64(ci)))
+				if ci%2 == 1 {
+					// programs whose main module declares go < 1.21 (as go-res itself does): recover() returns nil for panic(nil)
+					cmd.Env = append(os.Environ(), "GODEBUG=panicnil=1")
+				}
 				var errb bytes.Buffer
 				cmd.Stdout = &errb
 				cmd.Stderr = &errb
